@@ -77,7 +77,12 @@ def random_scenario(rng: random.Random, nsims=(2, 4), nconns=(1, 5), until=(2, 4
         scn["multipair"] = True  # connections between the same entities with the same options are made by ONE connect() call
     if rng.random() < 0.05:
         scn["until"] = 1
-    return S.normalize(scn)
+    if not scn.get("multipair") and rng.random() < 0.12:
+        scn["connect_one"] = True  # single-pair connections are made with World.connect_one instead of World.connect
+    scn = S.normalize(scn)
+    if rng.random() < 0.12:
+        scn = S.rename_sids(scn)  # simulator ids with unusual characters
+    return scn
 
 
 def variants(scn, lazy=(True, False), cache=(True, False)):
